@@ -36,7 +36,7 @@ LockFold(ev, i, holder, cnt, bad) ==
         [] e.ev = "ret"  -> LockFold(ev, i + 1, holder, cnt,
                                      IF holder = t THEN "call returned holding the lock"
                                      ELSE IF cnt[t].a # cnt[t].r THEN "call acquired and released a different number of times"
-                                     ELSE IF cnt[t].a = 0 THEN "store operation without lock"
+                                     ELSE IF cnt[t].a = 0 /\ ~e.free THEN "store operation without lock"
                                      ELSE bad)
         [] e.ev = "deadlock" -> LockFold(ev, i + 1, holder, cnt, "deadlock: every unfinished thread waits for the lock")
         [] OTHER -> LockFold(ev, i + 1, holder, cnt, bad)
